@@ -123,7 +123,28 @@ RULES = [
     (r"fourier:ns_optim_fft:", "equivalent", "table a little larger / smaller (sizes beyond 2^24 are not reached); meshgrid arguments swapped before a product"),
     (r"fourier:dephas:", "outside", "dephas is not named by any property"),
     (r"fourier:(_freq_filter|lp|fscale):", "equivalent", "b[0:3] handed to a function that reads b[0], b[1]; typ equal to the default; axis=0 of a 1-D array; [0] vs [-1]"),
+    # ---- ibldsp.waveform_extraction / cadzow / smooth
+    (r"waveform_extraction:WaveformsLoader\.(load_waveforms|__init__):.*:L(51[4-9]|57[4-9]|58[23])", "outside", "loader branch for the legacy 4-D file format (data_version 1), which the current extraction never writes"),
+    (r"waveform_extraction:WaveformsLoader\.load_waveforms:.*:L(586|592)", "equivalent", "[0] of np.where; log-only branch"),
+    (r"waveform_extraction:WaveformsLoader\.__init__:kwdrop:", "equivalent", "reset_index(drop=True) followed by dropping the index column; dtype of a memmap opened for reading"),
+    (r"waveform_extraction:extract_wfs_cbin:const:L329", "outside", "default worker count"),
+    (r"waveform_extraction:extract_wfs_cbin:argswap:L357", "equivalent", "np.arange(0, chunk, ns) yields ONE chunk [0, ns): the result does not depend on the chunking (that is the property)"),
+    (r"waveform_extraction:extract_wfs_cbin:.*:L(37[7-9]|38[01])", "outside", "channel labels for the preprocessing steps (the workload extracts with preprocess_steps=[]: only then can a waveform equal the source)"),
+    (r"waveform_extraction:extract_wfs_cbin:argswap:L406", "outside", "header and channel labels exchanged in the task arguments: both are used by preprocessing steps only"),
+    (r"waveform_extraction:extract_wfs_cbin:kwdrop:L440", "outside", "dtype of the saved templates (values are compared)"),
+    (r"waveform_extraction:(extract_wfs_cbin|_make_wfs_table|extract_wfs_array|aggregate_by_clusters|write_wfs_chunk):", "equivalent", "shape[0] vs [-1] of 1-D arrays; n_jobs only reaches joblib; nan_to_num on a column without NaN; sentinel -1 vs -2; min() arguments swapped; one more padding row / sample read than needed; first chunk read from sample 1 with all indices moved by one; verbose-only code; `sample >= 0` vs `> 0` (a spike at sample 0 is never valid)"),
+    (r"cadzow:(trajectory|traj_matrix_indices):", "equivalent", "[0] vs [-1] of np.where; index rows beyond the matrix are never read"),
+    (r"cadzow:denoise:argswap:L90", "equivalent", "np.minimum arguments swapped"),
+    (r"cadzow:denoise:argswap:L91", "outside", "trajectory(y, x): the embedding of the transposed layout satisfies every stated clause as well (identity at full rank, plane wave at rank one, noise reduced)"),
+    (r"smooth:rolling_window:(not|cmp|const):L62", "outside", "windows of 3-4 samples returned unsmoothed or smoothed: constants and length are kept either way"),
+    (r"smooth:rolling_window:argswap:", "equivalent", "np.convolve is commutative"),
+    (r"smooth:lp:", "outside", "corner of the smoother's low-pass (design constant); shape[0] vs [-1] of a 1-D series"),
     # ---- ibldsp.waveforms
+    (r"waveforms:compute_spike_features:const:L642", "equivalent", "1000 vs 1001 / 999 in the conversion of the recovery offset: absorbed by the rounding to whole samples"),
+    (r"waveforms:compute_spike_features:kwdrop:L646", "gap-closed", "recovery_slope checked against its definition at the caller's sampling rate (C14 `features:recovery_slope`); re-run: caught"),
+    (r"waveforms:compute_spike_features:not:L648", "outside", "optional return of the peak-channel traces is checked; the negated flag only changes which of the two checked forms is returned by default"),
+    (r"waveforms:shift_waveform:const:L767", "gap-closed", "clusters whose copies carry their own background noise: the delay must be measured on the template's peak trace (C07 shift_waveform class); re-run: caught"),
+    (r"waveforms:(shift_waveform|wave_shift_corrmax):const:", "equivalent", "range(0, n) vs range(-1, n) re-does the last spike first; shape[0] vs [-1] of a 1-D array"),
     (r"waveforms:(invert_peak_waveform|find_tip_trough):cmp:", "outside", "a peak of exactly 0 / a ratio of exactly 1.5"),
     (r"waveforms:(invert_peak_waveform|find_tip_trough|recovery_point):const:", "equivalent", "[0] vs [-1] of np.where; `len(...) > 0` vs `> -1` runs the block on an empty index"),
     (r"waveforms:find_tip_trough:cmp:L208", "equivalent", "`len(...) > 0` vs `>= 0` runs the block on an empty index"),
